@@ -187,8 +187,15 @@ W_C02_NoCorruptAfterRestart(x) ==
     IF x.ev # "Restart" THEN {} ELSE {k \in Key : ~(x.rb[k] = None \/ x.rb[k] \in x.g.validated[k])}
 W_C02_CompletedWritesDurable(x) ==
     IF x.ev # "Restart" THEN {} ELSE {k \in Key : x.g.durable[k] # 0 /\ x.rb[k] # x.g.durable[k]}
+\* a removal is complete when the delete it spawned has run (gone), or when the removal (remove / eviction /
+\* clean-up) was the last thing that happened to the key and no background body of the key was left when the
+\* process stopped -- whatever the removal had to do on disk is then done
 W_C02_RemovalsStay(x) ==
-    IF x.ev # "Restart" THEN {} ELSE {k \in Key : x.g.gone[k] /\ ~(x.rb[k] = None /\ k \notin x.r.st.idx)}
+    IF x.ev # "Restart" THEN {} ELSE
+    {k \in Key : /\ \/ x.g.gone[k]
+                    \/ /\ x.g.last[k].kind = "removed"
+                       /\ ~\E j \in 1..Len(x.s.tasks) : x.s.tasks[j].kind \in {"W", "D"} /\ x.s.tasks[j].k = k
+                 /\ ~(x.rb[k] = None /\ k \notin x.r.st.idx)}
 
 \* ---- C10
 Only0(cond) == IF cond THEN {} ELSE {0}
